@@ -25,6 +25,7 @@ EXPLANATION = (
     "ChunkSink.buf is the mem::replace whose result is sent as Msg::Chunk; write appends data[..take] and advances by the same "
     "take; readers advance by the number of bytes they copied. Not decided: chunk-size arithmetic at every boundary residue, "
     "compression round trip (zstd), relative producer/consumer speed."
+    ' (pull-decision-table, closed over consumers) only Session::recv reads the session channel, and every caller of Session::recv accounts for what it takes: End is returned as last or recorded in a flag pull replays, Fail surfaces as an error, a Chunk is returned or staged.'
 )
 ASSUMPTIONS = ["std::sync::mpsc and tokio mpsc channels are FIFO and lossless", "zstd decoding inverts zstd encoding"]
 
